@@ -20,8 +20,9 @@ from gen import bamparts as B
 
 ID = "C12"
 PROPS = ["IsoVerif/Props/C12.lean", "IsoVerif/Props/C12Cache.lean", "IsoVerif/Props/C12EndToEnd.lean",
-         "IsoVerif/Props/C12Ids.lean"]
-TARGETS = ["IsoVerif.Props.C12", "IsoVerif.Props.C12Cache", "IsoVerif.Props.C12EndToEnd", "IsoVerif.Props.C12Ids"]
+         "IsoVerif/Props/C12Ids.lean", "IsoVerif/Props/C05Headers.lean"]
+TARGETS = ["IsoVerif.Props.C12", "IsoVerif.Props.C12Cache", "IsoVerif.Props.C12EndToEnd", "IsoVerif.Props.C12Ids",
+           "IsoVerif.Props.C05Headers"]
 GEN_DEPS = ["Prims", "Constants", "AnnotationTypes"]
 LEVEL = "proof"
 RULE = ("merge / forwarded: exhaustive multisets of <=3 records over coordinates 0..3 x every assignment to <=3 files "
@@ -351,23 +352,39 @@ def forwarded_cases(ctx):
             recs.append((pos, pos + ln, t))
             pos += rng.randint(0, ln - 1)
         cases.append((B.partition(rng, recs, rng.randint(1, 4)), None))
-    return cases
+    # parts that do not share a header (seed C12_a4): own length per part, a part without records that does not list the
+    # sequence.  The model op takes the record lists only: by Props/C05Headers.headers_as_common_header the collector
+    # forwards on such parts what it forwards under one common header, so the SAME model value must come out
+    res = []
+    for files, small in cases:
+        hd = None
+        if len(files) >= 2 and rng.random() < 0.4:
+            if all(files) and rng.random() < 0.6:
+                # empty one part: its records go to a neighbour (still sorted by start)
+                files = [list(f) for f in files]
+                j = rng.randrange(len(files))
+                k = (j + 1) % len(files)
+                files[k] = sorted(files[k] + files[j], key=lambda r: r[0])
+                files[j] = []
+            hd = B.own_headers(rng, files)
+        res.append((files, small, hd))
+    return res
 
 
 def corr_forwarded(ctx, real_dir):
     cases = forwarded_cases(ctx)
     jobs = []
     n_real = 0
-    for ci, (files, small) in enumerate(cases):
+    for ci, (files, small, hd) in enumerate(cases):
         for mem in (False, True):
-            use_real = (ci % (12 if ctx.tier == "quick" else 6) == 0)
+            use_real = (ci % (12 if ctx.tier == "quick" else 6) == 0) or (hd is not None and ci % 5 == 0)
             pairs = None
             try:
                 if use_real:
-                    pairs = B.write_real_bams(os.path.join(real_dir, "c%d_%d" % (ci, int(mem))), files, _length_of(files))
+                    pairs = B.write_real_bams(os.path.join(real_dir, "c%d_%d" % (ci, int(mem))), files, _length_of(files), headers=hd)
                     n_real += 1
                 else:
-                    pairs = B.fake_pairs(files, _length_of(files))
+                    pairs = B.fake_pairs(files, _length_of(files), headers=hd)
                 r = guarded(impl_forwarded, pairs, mem, small)
             finally:
                 if use_real and pairs:
@@ -377,14 +394,19 @@ def corr_forwarded(ctx, real_dir):
                 io, table = r, []
             else:
                 io, table = r
-            jobs.append((files, small, mem, use_real, io, table))
+            jobs.append((files, small, mem, use_real, io, table, hd))
     ctx.count("forwarded:on_real_bam_files", n_real)
-    outs = ctx.driver.run([vlib.req("C12.forwarded", files=_files_json(f), splits=t, mem=m) for f, _, m, _, _, t in jobs])
-    for (files, small, mem, use_real, io, table), mo in zip(jobs, outs):
+    outs = ctx.driver.run([vlib.req("C12.forwarded", files=_files_json(f), splits=t, mem=m) for f, _, m, _, _, t, _ in jobs])
+    for (files, small, mem, use_real, io, table, hd), mo in zip(jobs, outs):
         ctx.evaluations += 1
         ctx.count("op:forwarded")
         ctx.count("forwarded:%s:%s" % ("high_memory" if mem else "default", "lowered_thresholds" if small else "real_thresholds"))
         inp = {"files": _files_json(files), "mem": mem, "small": list(small) if small else None, "real_bam": use_real}
+        if hd is not None:
+            inp["headers"] = hd
+            ctx.count("forwarded:parts_with_own_headers")
+            if any(h is None for h in hd):
+                ctx.count("forwarded:part_not_listing_the_sequence")
         if isinstance(mo, dict) and "driver_error" in mo:
             ctx.disagree("forwarded", inp, mo, None)
             continue
@@ -641,7 +663,7 @@ def forwarded_multiset(out):
     return d
 
 
-def partition_check(files_a, files_b, mem, small, real_dir=None):
+def partition_check(files_a, files_b, mem, small, real_dir=None, headers_b=None):
     """(verdict, detail) for the real intake on two representations of the same records:
        ("same", None)     the same (region, alignment) multiset is forwarded
        ("lost", text)     an alignment reaches the per-alignment worker in one representation only: its record is
@@ -651,10 +673,11 @@ def partition_check(files_a, files_b, mem, small, real_dir=None):
     res = []
     for idx, files in enumerate((files_a, files_b)):
         L = max(_length_of(files_a), _length_of(files_b))
+        hd = headers_b if idx == 1 else None          # the parts of the second representation do not share a header
         if real_dir:
-            pairs = B.write_real_bams(os.path.join(real_dir, "o%d" % idx), files, L)
+            pairs = B.write_real_bams(os.path.join(real_dir, "o%d" % idx), files, L, headers=hd)
         else:
-            pairs = B.fake_pairs(files, L)
+            pairs = B.fake_pairs(files, L, headers=hd)
         try:
             r = guarded(impl_forwarded, pairs, mem, small)
         finally:
@@ -716,11 +739,12 @@ def pipeline_from_records(files_a, files_b, high_memory=False):
         shutil.rmtree(root, ignore_errors=True)
 
 
-def _judge_partition(ctx, a, b, mem, small, escalated):
+def _judge_partition(ctx, a, b, mem, small, escalated, headers_b=None):
     """evaluates one pair of representations; reports failures; returns the verdict"""
-    verdict, detail = partition_check(a, b, mem, small)
+    verdict, detail = partition_check(a, b, mem, small, headers_b=headers_b)
     if verdict == "lost":
-        ctx.fail("partition:alignment_lost", {"a": a, "b": b, "mem": mem, "small": small}, detail)
+        ctx.fail("partition:alignment_lost", {"a": a, "b": b, "mem": mem, "small": small, "headers_b": headers_b},
+                 detail + (" (headers of the parts: %s)" % headers_b if headers_b else ""))
     elif verdict == "differs":
         ctx.count("oracle:intake_differs")
         if escalated[0] < 6:
@@ -747,7 +771,7 @@ def oracle_partition(ctx, disagreements, broken):
             continue
         for mem in (False, True):
             for small in (None, SMALL_CONSTS):
-                _judge_partition(ctx, [recs], files, mem, small, escalated)
+                _judge_partition(ctx, [recs], files, mem, small, escalated, d["input"].get("headers"))
                 n += 1
         if len(ctx.failures) > 10:
             break
@@ -766,7 +790,20 @@ def oracle_partition(ctx, disagreements, broken):
         a = B.one_file(rng, recs)
         b = B.partition(rng, recs, rng.randint(2, 4))
         mem = rng.random() < 0.5
-        _judge_partition(ctx, a, b, mem, small, escalated)
+        hd = None
+        if i % 3 == 0:
+            # parts with their own headers; every second time one part holds no record (its header may lack the sequence)
+            if i % 6 == 0 and all(b):
+                j = rng.randrange(len(b))
+                k = (j + 1) % len(b)
+                b = [list(f) for f in b]
+                b[k] = sorted(b[k] + b[j], key=lambda r: r[0])
+                b[j] = []
+            hd = B.own_headers(rng, b)
+            ctx.count("oracle:partition_inprocess_own_headers")
+            if any(h is None for h in hd):
+                ctx.count("oracle:partition_inprocess_part_not_listing_the_sequence")
+        _judge_partition(ctx, a, b, mem, small, escalated, hd)
         n += 1
         ctx.count("oracle:partition_inprocess")
         if len(ctx.failures) > 10:
@@ -919,15 +956,27 @@ def compare_runs(a, b, names=None, as_multiset=True):
     return None
 
 
-def pipeline_partition(root, seed, scenario, k, part_seed, high_memory=False, threads=1):
-    """(1) one BAM vs the same records split over k BAM files of one experiment"""
+def pipeline_partition(root, seed, scenario, k, part_seed, high_memory=False, threads=1, own_headers=False):
+    """(1) one BAM vs the same records split over k BAM files of one experiment.  own_headers: the parts do not share a
+    header - part 0 holds no read of the last chromosome and does not list it (a part made by subsetting), part 1 lists the
+    chromosomes in reverse order, the other parts keep the header of the whole file"""
     import random
     ds = B.make_dataset(seed, scenario)
     d = os.path.join(root, "data")
     paths = ds.write(d)
     rng = random.Random(part_seed)
     parts = B.split_reads(rng, ds.reads, k)
-    bams = [ds.write(d, bam_name="part%d.bam" % i, reads=p, write_ref=False)["bam"] for i, p in enumerate(parts)]
+    headers = [None] * k
+    if own_headers:
+        names = list(ds.chroms)
+        full = [(n, len(ds.chroms[n])) for n in names]
+        last = names[-1]
+        moved = [r for r in parts[0] if r["chr"] == last]
+        parts[0] = [r for r in parts[0] if r["chr"] != last]
+        parts[1] = parts[1] + moved
+        headers[0] = [h for h in full if h[0] != last]
+        headers[1] = list(reversed(full))
+    bams = [ds.write(d, bam_name="part%d.bam" % i, reads=p, write_ref=False, header=headers[i])["bam"] for i, p in enumerate(parts)]
     # --keep_tmp: the per-chromosome dumps of both runs stay on disk for the hypothesis monitor below
     extra = (["--high_memory"] if high_memory else []) + ["--keep_tmp"]
     one = run_one(root, "one", [paths["bam"]], paths["ref"], paths["gtf"], True, extra=extra, threads=threads)
@@ -1099,7 +1148,7 @@ def _job(spec):
     try:
         if spec["kind"] == "partition":
             st, r, n = pipeline_partition(root, spec["seed"], spec["scenario"], spec["k"], spec["part_seed"],
-                                          spec.get("high_memory", False), spec.get("threads", 1))
+                                          spec.get("high_memory", False), spec.get("threads", 1), spec.get("own_headers", False))
             return spec, st, r, {"records": n}
         if spec["kind"] == "formats":
             st, r = pipeline_formats(root, spec["seed"], spec["scenario"], spec.get("style"))
@@ -1122,7 +1171,7 @@ def pipeline_specs(ctx, broken):
         for sc in scen:
             specs.append({"kind": "partition", "seed": rng.randint(1, 10 ** 6), "scenario": sc, "k": rng.randint(2, 4),
                           "part_seed": rng.randint(1, 10 ** 6), "high_memory": rng.random() < 0.3,
-                          "threads": rng.choice([1, 1, 2])})
+                          "threads": rng.choice([1, 1, 2]), "own_headers": i % 2 == 0})
     if not quick:
         for i in range(3):
             specs.append({"kind": "partition", "seed": rng.randint(1, 10 ** 6), "scenario": "deep", "k": rng.randint(2, 4),
@@ -1149,6 +1198,8 @@ def oracle_pipeline(ctx, broken):
         results = list(ex.map(_job, specs))
     for spec, st, r, info in results:
         ctx.count("oracle:pipeline_" + spec["kind"])
+        if spec.get("own_headers"):
+            ctx.count("oracle:pipeline_partition_parts_with_own_headers")
         if st == "infra":
             ctx.notes.append("pipeline %s: %s" % (spec, r))
             ctx.count("oracle:pipeline_infra_failure")
@@ -1186,7 +1237,7 @@ def replay(ctx, failure):
         a = [[tuple(r) for r in f] for f in inp["a"]]
         b = [[tuple(r) for r in f] for f in inp["b"]]
         small = tuple(inp["small"]) if inp.get("small") else None
-        return partition_check(a, b, inp["mem"], small)[0] == "lost"
+        return partition_check(a, b, inp["mem"], small, headers_b=inp.get("headers_b"))[0] == "lost"
     if kind == "pipeline:bam_partition_records":
         a = [[tuple(r) for r in f] for f in inp["a"]]
         b = [[tuple(r) for r in f] for f in inp["b"]]
